@@ -27,6 +27,7 @@ import (
 	"os"
 	"os/exec"
 	"path/filepath"
+	"reflect"
 	"regexp"
 	"runtime"
 	"sort"
@@ -35,6 +36,7 @@ import (
 	"sync"
 	"sync/atomic"
 	"time"
+	"unsafe"
 
 	"github.com/gin-gonic/gin"
 	"github.com/luraproject/lura/v2/config"
@@ -218,6 +220,56 @@ type callRec struct {
 	dl        time.Duration
 	ctx       context.Context
 	doneAfter bool
+	depth     int  // contexts between this one (included) and the one handed in (excluded); -1 unknown
+	chainDone bool // all of them report Err() != nil (sampled together with doneAfter)
+}
+
+// parentOf follows the parent link of the standard library's cancelCtx / timerCtx (the embedded
+// Context field; read-only access through reflection, the field never changes after creation)
+func parentOf(c context.Context) (context.Context, bool) {
+	v := reflect.ValueOf(c)
+	if v.Kind() != reflect.Ptr || v.IsNil() {
+		return nil, false
+	}
+	e := v.Elem()
+	if e.Kind() != reflect.Struct || e.Type().PkgPath() != "context" {
+		return nil, false
+	}
+	if f := e.FieldByName("cancelCtx"); f.IsValid() && f.Kind() == reflect.Struct {
+		e = f
+	}
+	f := e.FieldByName("Context")
+	if !f.IsValid() || !f.CanAddr() || f.Kind() != reflect.Interface {
+		return nil, false
+	}
+	p, ok := reflect.NewAt(f.Type(), unsafe.Pointer(f.UnsafeAddr())).Elem().Interface().(context.Context)
+	return p, ok && p != nil
+}
+
+// walkChain: how many contexts lie between ctx (included) and stop (excluded; under gin the
+// *gin.Context), and whether all of them are done
+func walkChain(ctx, stop context.Context) (int, bool) {
+	depth, all := 0, true
+	for cur := ctx; ; {
+		if cur == stop {
+			return depth, all
+		}
+		if _, isGin := cur.(*gin.Context); isGin {
+			return depth, all
+		}
+		if depth > 32 {
+			return -1, all
+		}
+		depth++
+		if cur.Err() == nil {
+			all = false
+		}
+		p, ok := parentOf(cur)
+		if !ok {
+			return -1, all
+		}
+		cur = p
+	}
 }
 
 // a backend body; one that lura started to read (so it got past the "context done?" test of
@@ -242,9 +294,10 @@ type recorder struct {
 	released  atomic.Bool
 	immMax    atomic.Int64 // latest moment an "at once" behaviour that the model relies on finished
 	bodies    []*body
-	firstSlow int         // index of the first backend without an Answer attempt (sequential: later ones are not called "at once")
-	quiet     bool        // stress loop: behave, record nothing
-	midTaint  atomic.Bool // a Mid attempt did not answer where the model places it (slow machine)
+	firstSlow int             // index of the first backend without an Answer attempt (sequential: later ones are not called "at once")
+	stop      context.Context // the context handed to the pipeline / request
+	quiet     bool            // stress loop: behave, record nothing
+	midTaint  atomic.Bool     // a Mid attempt did not answer where the model places it (slow machine)
 }
 
 func newRecorder(s spec) *recorder {
@@ -280,6 +333,7 @@ func (r *recorder) enter(ctx context.Context, be int) beh {
 	r.mu.Lock()
 	if r.returned {
 		c.doneAfter = ctx.Err() != nil
+		c.depth, c.chainDone = walkChain(ctx, r.stop)
 	}
 	r.calls = append(r.calls, c)
 	r.mu.Unlock()
@@ -480,6 +534,7 @@ func (r *recorder) markReturned() {
 	r.returned = true
 	for _, c := range r.calls {
 		c.doneAfter = c.ctx.Err() != nil
+		c.depth, c.chainDone = walkChain(c.ctx, r.stop)
 	}
 	r.mu.Unlock()
 }
@@ -630,6 +685,7 @@ func runOn(in *instance, s spec) *result {
 		pctx, c2 = context.WithDeadline(base, rec.t0.Add(s.parent))
 		defer c2()
 	}
+	rec.stop = pctx
 	limit := s.T
 	if s.parent > limit {
 		limit = s.parent
@@ -1314,6 +1370,8 @@ type callData struct {
 	HasDl     bool  `json:"has_dl"`
 	Dl        int64 `json:"dl"`
 	DoneAfter bool  `json:"done_after"`
+	Depth     int   `json:"depth"`
+	ChainDone bool  `json:"chain_done"`
 }
 
 type obsData struct {
@@ -1343,7 +1401,7 @@ func (r *result) data() obsData {
 	o := obsData{Returned: r.returned, Ret: int64(r.ret), Keys: r.keys, Leaked: r.leaked, Released: rec.released.Load(),
 		Tainted: r.tainted || rec.midTaint.Load(), Panic: r.panicked, BatchLevel: r.batchLevel}
 	for _, c := range calls {
-		o.Calls = append(o.Calls, callData{Be: c.be, Inv: int64(c.inv), HasDl: c.hasDl, Dl: int64(c.dl), DoneAfter: c.doneAfter})
+		o.Calls = append(o.Calls, callData{Be: c.be, Inv: int64(c.inv), HasDl: c.hasDl, Dl: int64(c.dl), DoneAfter: c.doneAfter, Depth: c.depth, ChainDone: c.chainDone})
 	}
 	return o
 }
@@ -1358,8 +1416,16 @@ func emitCase(w *out.Writer, s spec, r obsData) {
 			dl = emit.Some(emit.Z(c.Dl))
 			dj = c.Dl
 		}
-		cl = append(cl, fmt.Sprintf("{| k_be := %s; k_inv := %s; k_dl := %s; k_done_after := %s |}", emit.Nat(c.Be), emit.Z(c.Inv), dl, emit.Bool(c.DoneAfter)))
-		cj = append(cj, map[string]interface{}{"backend": c.Be, "invoked_ns": c.Inv, "deadline_ns": dj, "done_after_return": c.DoneAfter})
+		depth := "None"
+		if c.Depth >= 0 {
+			depth = emit.Some(emit.Nat(c.Depth))
+		} else {
+			w.Count("context-chain-not-walkable")
+		}
+		cl = append(cl, fmt.Sprintf("{| k_be := %s; k_inv := %s; k_dl := %s; k_done_after := %s; k_depth := %s; k_chain_done := %s |}",
+			emit.Nat(c.Be), emit.Z(c.Inv), dl, emit.Bool(c.DoneAfter), depth, emit.Bool(c.ChainDone || c.Depth < 0)))
+		cj = append(cj, map[string]interface{}{"backend": c.Be, "invoked_ns": c.Inv, "deadline_ns": dj, "done_after_return": c.DoneAfter,
+			"derived_contexts_above": c.Depth, "all_of_them_done_after_return": c.ChainDone})
 	}
 	keys := append([]int(nil), r.Keys...)
 	sort.Ints(keys)
